@@ -81,6 +81,17 @@ Section Enc.
     apply andb_prop in Hl as [Hl _]. apply in_sb_spec. exact Hl.
   Qed.
 
+  Lemma wf_variant_ok n vs vok kp id vt : lookup S n = Some (DUnion vs vok kp) -> In (id, vt) vs ->
+    is_void (resolve S vt) = false -> ttype_ok S vt = true.
+  Proof.
+    intros Hl Hin Hnv. apply (wf_lookup S Hwf) in Hl. cbn [decl_ok] in Hl.
+    apply andb_prop in Hl as [_ Hl]. destruct vs as [|[i0 t0] r]; [destruct Hin|].
+    apply andb_prop in Hl as [Hl H0]. apply andb_prop in Hl as [_ Hr].
+    destruct Hin as [E|Hin].
+    - injection E as -> ->. rewrite Hnv in H0. exact H0.
+    - rewrite forallb_forall in Hr. apply (Hr _ Hin).
+  Qed.
+
   (* ----- well-typedness of the tree ----- *)
   Lemma to_tval_wt v : forall t, has_type S t v = true -> wt (to_tval S t v) = true.
   Proof.
